@@ -1,0 +1,29 @@
+//go:build verif
+
+// Contracts for key tags, NSEC3 matching/covering, validity periods (dnssec.go, nsecx.go).  Comment-only file.
+
+package dns
+
+// ---- NSEC3 Match / Cover (RFC 5155 section 7.2.8 and 8.3) ---------------------------------------------------
+// Hash values are compared as base32hex text, whose octet-wise order is the order of the hash values.
+// covers(h, o, n): h lies strictly between owner hash o and next hash n in circular order.
+// The exit clauses below speak about the function's own locals (nameHash, ownerHash, nextHash, ownerZone)
+// at the returns where they are defined; the early returns (owner without a zone part, name outside the
+// zone) are covered by `zone`.
+
+//@ func HashName [C17]
+//@   pure
+//@ extern strings.ToUpper
+//@   pure
+//@ extern strings.ToLower
+//@   pure
+
+//@ func (*NSEC3).Cover [C17]
+//@   exit zone:     ret0 ==> callres("IsSubDomain")
+//@   exit strict:   ret0 ==> nameHash != ownerHash
+//@   exit interval: callres("IsSubDomain") ==> ret0 == ((ownerHash == nextHash) ? (nameHash != ownerHash) : (strlt(nextHash, ownerHash) ? (strlt(ownerHash, nameHash) || strlt(nameHash, nextHash)) : (strlt(ownerHash, nameHash) && strlt(nameHash, nextHash))))
+//@   pure
+
+//@ func (*NSEC3).Match [C17]
+//@   exit match: ret0 == (callres("IsSubDomain") && ownerHash == nameHash)
+//@   pure
